@@ -521,14 +521,6 @@ def evaluate__value_comparison_operators(self: XPathToken, context: ta.ContextTy
         return []
     elif any(isinstance(x, XPathFunction) for x in operands):
         raise self.error('FOTY0013', "cannot compare a function item")
-    elif all(isinstance(x, DoubleProxy10) for x in operands):
-        # Special case of two <class 'float'> values: use custom operators
-        if self.symbol == 'eq':
-            return numeric_equal(*cast(list[float], operands))
-        elif self.symbol == 'ne':
-            return numeric_not_equal(*cast(list[float], operands))
-        elif numeric_equal(*cast(list[float], operands)):
-            return self.symbol in ('le', 'ge')
 
     cls0, cls1 = type(operands[0]), type(operands[1])
     if cls0 is cls1 and cls0 is not Duration:
